@@ -50,6 +50,10 @@ type DialScenario struct {
 	// CloseDuringAuth = k > 0 (RunAuthFirst only): while the server holds back its reply to the k-th line
 	// of the AUTH dialogue, another goroutine calls Client.Close() (a watchdog, a shutdown)
 	CloseDuringAuth int `json:"close_during_auth,omitempty"`
+	// RedialNoClose: the second DialWithContext happens without a Close in between (the Client still holds the
+	// first connection); OldQuit: what the FIRST server answers should the client send it a QUIT now
+	RedialNoClose bool       `json:"redial_no_close,omitempty"`
+	OldQuit       *SrvAction `json:"old_quit,omitempty"`
 }
 
 type DialRun struct {
@@ -183,10 +187,26 @@ func RunDial(sc *DialScenario) *DialRun {
 	var later []func(c *mail.Client)
 	opts := []mail.Option{mail.WithDialContextFunc(dial), mail.WithTimeout(timeout)}
 	tlsCfg := &tls.Config{ServerName: sc.Host, RootCAs: tlsRoots, MinVersion: tls.VersionTLS12}
-	if pick() {
-		later = append(later, func(c *mail.Client) { c.SetTLSPolicy(mail.TLSPolicy(sc.Policy)) })
-	} else {
-		opts = append(opts, mail.WithTLSPolicy(mail.TLSPolicy(sc.Policy)))
+	pol := mail.TLSPolicy(sc.Policy)
+	other := mail.TLSPolicy((sc.Policy + 1) % 3)
+	polForm := 0
+	if sc.Variant != 0 {
+		polForm = vr.Intn(5)
+	}
+	switch polForm {
+	case 1:
+		later = append(later, func(c *mail.Client) { c.SetTLSPolicy(pol) })
+	case 2:
+		// another policy and an explicit port first, then the port-policy setter: the policy is what was set last
+		opts = append(opts, mail.WithPort(2525), mail.WithTLSPolicy(other))
+		later = append(later, func(c *mail.Client) { c.SetTLSPortPolicy(pol) })
+	case 3:
+		opts = append(opts, mail.WithTLSPortPolicy(other))
+		later = append(later, func(c *mail.Client) { c.SetTLSPortPolicy(pol) })
+	case 4:
+		opts = append(opts, mail.WithTLSPortPolicy(other), mail.WithTLSPortPolicy(pol))
+	default:
+		opts = append(opts, mail.WithTLSPolicy(pol))
 	}
 	if pick() {
 		later = append(later, func(c *mail.Client) { _ = c.SetTLSConfig(tlsCfg) })
@@ -241,7 +261,14 @@ func RunDial(sc *DialScenario) *DialRun {
 				run.Panic = r
 			}
 		}()
-		run.Err = client.DialWithContext(context.Background())
+		dctx := context.Background()
+		if sc.Variant != 0 && sc.Variant%3 == 0 {
+			// a context with a deadline of its own, far beyond the configured timeout
+			var cancelD context.CancelFunc
+			dctx, cancelD = context.WithTimeout(dctx, time.Hour)
+			defer cancelD()
+		}
+		run.Err = client.DialWithContext(dctx)
 		if run.Err == nil && sc.ThenReset {
 			run.ResetErr = client.Reset()
 		}
@@ -254,8 +281,21 @@ func RunDial(sc *DialScenario) *DialRun {
 	collectDial(run, srv, conn, logger, 0)
 	if sc.Redial != nil && run.Panic == nil {
 		// same Client, new connection to another server incarnation
-		if run.Err == nil {
+		if run.Err == nil && !sc.RedialNoClose {
 			_ = client.Close()
+		}
+		if sc.RedialNoClose && sc.OldQuit != nil {
+			oldDyn := srv.Dynamic
+			oq := *sc.OldQuit
+			srv.Dynamic = func(pos int, verb, line string) (SrvAction, bool) {
+				if verb == "QUIT" {
+					return oq, true
+				}
+				if oldDyn != nil {
+					return oldDyn(pos, verb, line)
+				}
+				return SrvAction{}, false
+			}
 		}
 		logger.mu.Lock()
 		from := len(logger.recs)
